@@ -21,6 +21,7 @@ type floodLine struct {
 	text    string
 	enq     time.Duration // when the harness handed it to the client
 	floodOn bool          // Config.Flood at that time (phases are separated by quiescence)
+	pieces  int           // long messages: lines seen on the wire
 }
 
 func charge(n int) time.Duration { return 2*time.Second + time.Duration(n)*time.Second/120 }
@@ -166,7 +167,18 @@ func floodRun(e *Env) {
 	startFlood := g.Pct(15)
 	// (no SASL knob here: it would add CAP LS to the registration, and this
 	// world accounts for every line on the wire)
-	s := startSession(e, ClientOpts{Nick: "me", Flood: startFlood, Timeout: []time.Duration{0, time.Second, 10 * time.Minute}[g.Intn(3)], SplitLen: []int{0, 50, 2000}[g.Intn(3)]},
+	splitLen := []int{0, 50, 2000}[g.Intn(3)]
+	effSplit := splitLen
+	if effSplit == 0 {
+		effSplit = 450
+	}
+	// some calls are messages longer than SplitLen: the client turns each into
+	// several lines, and every one of them is a line like any other to the rule
+	// (only where the resulting lines stay within the 510 bytes the claim is about)
+	splitRun := g.Pct(30) && effSplit <= 450
+	byTarget := map[string]*floodLine{}
+	splitCalls := 0
+	s := startSession(e, ClientOpts{Nick: "me", Flood: startFlood, Timeout: []time.Duration{0, time.Second, 10 * time.Minute}[g.Intn(3)], SplitLen: splitLen},
 		func(l *simnet.Link) { l.ChunkMode = g.Intn(4) })
 	// idle time between creating the client and connecting is part of the
 	// history: the penalty clock starts at creation
@@ -230,6 +242,8 @@ func floodRun(e *Env) {
 				ln     int
 				gap    time.Duration
 				prefix string
+				long   int // > 0: a Privmsg/Notice of this many bytes of text
+				notice bool
 			}
 			prefixes := []string{"", "", "", "PASS ", "PONG :", "PING :", "QUIT :", "PRIVMSG #c :", "JOIN ", "\x01", "CAP END", "AUTHENTICATE "}
 			var items []item
@@ -250,12 +264,36 @@ func floodRun(e *Env) {
 				if nsenders > 1 && ln < 14 {
 					ln = 14
 				}
-				items = append(items, item{ln, gaps[g.Intn(len(gaps))], prefixes[g.Intn(len(prefixes))]})
+				it := item{ln: ln, gap: gaps[g.Intn(len(gaps))], prefix: prefixes[g.Intn(len(prefixes))]}
+				if splitRun && g.Pct(35) {
+					it.long = g.Range(effSplit+1, effSplit*9)
+					if it.long > 3600 {
+						it.long = 3600
+					}
+					it.notice = g.Bool()
+				}
+				items = append(items, it)
 			}
 			run := func() {
 				for _, it := range items {
 					simrt.Sleep(it.gap)
 					seq++
+					if it.long > 0 {
+						target := fmt.Sprintf("#fl%d", seq)
+						var b strings.Builder
+						for b.Len() < it.long {
+							b.WriteString([]string{"lorem", "ipsum-dolor", "x", "consectetur", strings.Repeat("w", 70)}[(seq+b.Len())%5])
+							b.WriteByte(' ')
+						}
+						byTarget[target] = &floodLine{text: target, enq: e.S.Now(), floodOn: floodNow}
+						splitCalls++
+						if it.notice {
+							s.c.Notice(target, b.String()[:it.long])
+						} else {
+							s.c.Privmsg(target, b.String()[:it.long])
+						}
+						continue
+					}
 					var text string
 					if nsenders > 1 {
 						text = fmt.Sprintf("P %d.%06d ", t, seq)
@@ -296,7 +334,19 @@ func floodRun(e *Env) {
 		// without letting more time pass than needed: the next phase may start
 		// while the penalty is still high
 		want := total + 2
-		if !simrt.BlockFor("flood", "all lines to be written", time.Duration(total)*7*time.Second+time.Minute, func() bool { return len(s.l.Writes) >= want }) {
+		if splitCalls > 0 {
+			// how many lines a long message becomes is the client's business (C11):
+			// wait until nothing has been written for longer than any line is held
+			for quiet := 0; quiet < 2; {
+				nw := len(s.l.Writes)
+				simrt.Sleep(20 * time.Second)
+				if len(s.l.Writes) == nw {
+					quiet++
+				} else {
+					quiet = 0
+				}
+			}
+		} else if !simrt.BlockFor("flood", "all lines to be written", time.Duration(total)*7*time.Second+time.Minute, func() bool { return len(s.l.Writes) >= want }) {
 			e.Violation("harness-lines-missing", "%d lines on the wire, expected %d (connection up, server reading)\n%s", len(s.l.Writes), want, e.S.TaskDump())
 			return
 		}
@@ -324,6 +374,7 @@ func floodRun(e *Env) {
 	}
 	var ws []wire
 	oi := 0
+	splitLines := 0
 	for _, w := range s.l.Writes {
 		if !strings.HasSuffix(w.Data, "\r\n") {
 			e.Violation("harness", "write %q is not one whole line", clip(w.Data))
@@ -331,8 +382,16 @@ func floodRun(e *Env) {
 		}
 		text := strings.TrimSuffix(w.Data, "\r\n")
 		x := wire{t: w.T, text: text}
+		var call *floodLine
+		if f := strings.SplitN(text, " ", 3); len(f) == 3 && (f[0] == "PRIVMSG" || f[0] == "NOTICE") && strings.HasPrefix(f[1], "#fl") {
+			call = byTarget[f[1]]
+		}
 		if strings.HasPrefix(text, "NICK ") || strings.HasPrefix(text, "USER ") {
 			x.enq, x.flood = connectAt, startFlood
+		} else if call != nil {
+			x.enq, x.flood = call.enq, call.floodOn
+			call.pieces++
+			splitLines++
 		} else if nsenders == 1 {
 			if oi >= len(order) || order[oi].text != text {
 				e.Violation("harness", "unexpected wire line %q", clip(text))
@@ -350,9 +409,21 @@ func floodRun(e *Env) {
 		}
 		ws = append(ws, x)
 	}
-	if len(ws) != total+2 && !cancelRun {
-		e.Violation("harness-lines-missing", "%d lines on the wire, expected %d (connection up, server reading)", len(ws), total+2)
+	if len(ws)-splitLines != total-splitCalls+2 && !cancelRun {
+		e.Violation("harness-lines-missing", "%d lines on the wire besides those of long messages, expected %d (connection up, server reading)", len(ws)-splitLines, total-splitCalls+2)
 		return
+	}
+	if !cancelRun {
+		for _, t := range sortedKeys(byTarget) {
+			fl := byTarget[t]
+			if fl.pieces < 2 {
+				e.Violation("harness-lines-missing", "the long message to %s became %d lines", t, fl.pieces)
+				return
+			}
+		}
+		if splitCalls > 0 {
+			e.S.Count("probe.long-messages-split-under-flood-protection")
+		}
 	}
 
 	// Oracle 3 and the reference model (oracle 2), under both character-count
